@@ -19,6 +19,7 @@ import shutil
 import subprocess
 import sys
 import time
+import traceback
 
 VERIF = os.path.dirname(os.path.dirname(os.path.abspath(__file__)))
 REPO = os.environ.get("VERIF_REPO", "/repo")
@@ -26,7 +27,10 @@ LEAN = os.path.join(VERIF, "lean")
 HARNESS = os.path.join(VERIF, "harness")
 BNGDRV = os.path.join(LEAN, ".lake", "build", "bin", "bngdrv")
 ALLOWED_AXIOMS = {"propext", "Classical.choice", "Quot.sound"}
-FORBIDDEN = re.compile(r"\bsorry\b|\badmit\b|^\s*axiom\s|native_decide|bv_decide|implemented_by|\bunsafe\s|maxHeartbeats\s+0")
+FORBIDDEN = re.compile(r"\bsorry\b|\badmit\b|^\s*axiom\s|native_decide|bv_decide|implemented_by|\bunsafe\s|maxHeartbeats\s+0"
+                       r"|@\[\s*extern|skipKernelTC|\+native|\bsorryAx\b")
+# in the executable models the kernel must see what the compiled driver runs: no opaque / partial definitions there
+FORBIDDEN_MODEL = re.compile(r"^\s*(?:private\s+|protected\s+)?(?:opaque|partial\s+def)\b")
 
 TRUSTED_BASE = [
     "Lean 4.33.0 kernel; axioms allowed: propext, Classical.choice, Quot.sound (audited per theorem with collectAxioms)",
@@ -46,25 +50,63 @@ def env_go():
 
 
 class Lock:
-    """serialises lake builds and Gen regeneration between concurrently running checks"""
+    """serialises lake builds and Gen regeneration between concurrently running checks; re-entrant within one
+    process, so that one run can hold `lean` from the regeneration of the Gen tables until its theorems are checked and
+    its driver executables are built and copied away (another run - possibly of another tree - cannot swap the tables,
+    the .olean files or the executables in between)"""
+    _held = {}
 
     def __init__(self, name="lean"):
+        self.name = name
         self.path = os.path.join(VERIF, ".%s.lock" % name)
 
     def __enter__(self):
-        self.f = open(self.path, "w")
-        fcntl.flock(self.f, fcntl.LOCK_EX)
+        h = Lock._held.get(self.name)
+        if h:
+            h[1] += 1
+            return self
+        f = open(self.path, "w")
+        fcntl.flock(f, fcntl.LOCK_EX)
+        Lock._held[self.name] = [f, 1]
         return self
 
     def __exit__(self, *a):
-        fcntl.flock(self.f, fcntl.LOCK_UN)
-        self.f.close()
+        h = Lock._held[self.name]
+        h[1] -= 1
+        if h[1] == 0:
+            fcntl.flock(h[0], fcntl.LOCK_UN)
+            h[0].close()
+            del Lock._held[self.name]
 
 
-def sh(cmd, cwd=None, env=None, timeout=None, stdin=None):
-    p = subprocess.run(cmd, cwd=cwd, env=env, timeout=timeout, input=stdin,
-                       stdout=subprocess.PIPE, stderr=subprocess.STDOUT, text=True)
+def sh(cmd, cwd=None, env=None, timeout=7200, stdin=None):
+    """run a command; a timeout is reported as exit code 124 (never an exception)"""
+    try:
+        p = subprocess.run(cmd, cwd=cwd, env=env, timeout=timeout, input=stdin,
+                           stdout=subprocess.PIPE, stderr=subprocess.STDOUT, text=True, errors="replace")
+    except subprocess.TimeoutExpired as e:
+        out = e.stdout if isinstance(e.stdout, str) else (e.stdout or b"").decode("utf-8", "replace")
+        return 124, out + "\n[timeout after %ss: %s]" % (timeout, " ".join(map(str, cmd))[:200])
     return p.returncode, p.stdout
+
+
+def repo_state():
+    """which tree this run is about (goes into the evidence)"""
+    rc, head = sh(["git", "-C", REPO, "rev-parse", "HEAD"], timeout=60)
+    rc2, dirty = sh(["git", "-C", REPO, "status", "--porcelain", "--untracked-files=no"], timeout=120)
+    return {"repo": os.path.realpath(REPO), "repo_head": head.strip() if rc == 0 else "?",
+            "repo_dirty": bool(dirty.strip()) if rc2 == 0 else None}
+
+
+def sweep_scratch(base):
+    """remove scratch directories of runs whose process is gone (killed runs leak them)"""
+    try:
+        for fn in os.listdir(base):
+            m = re.fullmatch(r"bngverif-\w+-(\d+)", fn)
+            if m and not os.path.exists("/proc/%s" % m.group(1)):
+                shutil.rmtree(os.path.join(base, fn), ignore_errors=True)
+    except OSError:
+        pass
 
 
 class Ctx:
@@ -74,8 +116,20 @@ class Ctx:
         self.seed = seed
         self.t0 = time.time()
         base = os.environ.get("XDG_CACHE_HOME") or "/var/tmp"
+        sweep_scratch(base)
         self.scratch = os.path.join(base, "bngverif-%s-%d" % (prop, os.getpid()))
-        os.makedirs(self.scratch, exist_ok=True)
+        shutil.rmtree(self.scratch, ignore_errors=True)     # a recycled pid must not inherit a stale harness copy
+        os.makedirs(self.scratch)
+        # a run against a scratch worktree (VERIF_REPO) must not overwrite the evidence / replays of the real tree
+        self.real_tree = os.path.realpath(REPO) == "/repo"
+        sub = "" if self.real_tree else "scratch-%d" % os.getpid()
+        self.evidence_dir = os.path.join(VERIF, "evidence", sub) if sub else os.path.join(VERIF, "evidence")
+        self.replay_dir = os.path.join(VERIF, "replays", sub) if sub else os.path.join(VERIF, "replays")
+        self.foreign = {}         # verdicts of monitors that belong to another property's check: monitor -> count
+        self.suppressed = {}      # known-finding clause -> number of verdicts it accounted for
+        self.escalated = False
+        self.seeds_run = []
+        self.exes = {}            # driver target -> private copy of the executable
         self.violations = []      # (replay_path, suffix)
         self.known_hits = {}      # finding id -> what
         self.proof = {"obligations": 0, "discharged": 0, "theorems": [], "errors": []}
@@ -108,7 +162,10 @@ class Ctx:
                 self.proof["errors"] += errs[:20] or [out[-2000:]]
                 self.broken.append(("proof", "lake build %s failed: %s" % (" ".join(spec_modules), "; ".join(errs[:3]))))
                 return False
-            audit = os.path.join(self.scratch, "audit.lean")
+            os.makedirs(os.path.join(LEAN, "audit"), exist_ok=True)
+            audit = os.path.join(LEAN, "audit", "Audit%s.lean" % self.prop) if self.real_tree else \
+                os.path.join(self.scratch, "audit.lean")
+            self.audit_file = audit
             with open(audit, "w") as f:
                 f.write("".join("import %s\n" % m for m in spec_modules) + "import Bng.Audit\n" +
                         "".join("#audit_module %s\n" % m for m in spec_modules))
@@ -132,16 +189,26 @@ class Ctx:
                 self.broken.append(("proof", "axiom declared: " + line.strip()))
         if rc != 0:
             self.broken.append(("proof", "axiom audit failed: " + out[-500:]))
-        # escapes anywhere in the project sources
+        # escapes anywhere in the project sources (lean/Bng and the executable roots lean/*.lean)
+        srcs = [os.path.join(LEAN, fn) for fn in os.listdir(LEAN) if fn.endswith(".lean")]
         for root, _, files in os.walk(os.path.join(LEAN, "Bng")):
-            for fn in files:
-                if not fn.endswith(".lean") or fn == "Audit.lean":
-                    continue
-                p = os.path.join(root, fn)
-                for n, l in enumerate(strip_comments(open(p).read()).splitlines(), 1):
-                    if FORBIDDEN.search(l):
-                        ok = False
-                        self.broken.append(("proof", "forbidden construct in %s:%d: %s" % (p, n, l.strip())))
+            srcs += [os.path.join(root, fn) for fn in files if fn.endswith(".lean") and fn != "Audit.lean"]
+        for p in sorted(srcs):
+            in_model = os.sep + "Model" + os.sep in p
+            for n, l in enumerate(strip_comments(open(p, errors="replace").read()).splitlines(), 1):
+                if FORBIDDEN.search(l) or (in_model and FORBIDDEN_MODEL.search(l)):
+                    ok = False
+                    self.broken.append(("proof", "forbidden construct in %s:%d: %s" % (p, n, l.strip())))
+        # the obligation set is pinned: a theorem that was there when the set was recorded must still be there
+        exp = os.path.join(VERIF, "checks", "expect", self.prop + ".txt")
+        if os.path.exists(exp):
+            have = {t["theorem"] for t in self.proof["theorems"]}
+            gone = [t for t in open(exp).read().split() if t not in have]
+            if gone and rc == 0:
+                ok = False
+                self.broken.append(("proof", "theorems of the pinned obligation set are gone: " + ", ".join(gone[:12])))
+        else:
+            self.notes.append("no pinned obligation set (checks/expect/%s.txt)" % self.prop)
         if self.proof["obligations"] == 0:
             ok = False
             self.broken.append(("proof", "no theorem found in " + " ".join(spec_modules)))
@@ -191,18 +258,37 @@ class Ctx:
             return None
         return out
 
-    def drv(self, comp_drv, trace_path, drv_bin="bngdrv"):
+    def build_driver(self, drv_bin):
+        """build the driver executable (under the lean lock) and keep a private copy: what this run replays with cannot
+        be relinked by another run"""
+        if drv_bin in self.exes:
+            return self.exes[drv_bin]
         exe = os.path.join(LEAN, ".lake", "build", "bin", drv_bin)
-        if drv_bin not in self._built_bins:
-            with Lock("lean"):
-                rc, out = sh(["lake", "build", drv_bin], cwd=LEAN)
-            self._built_bins.add(drv_bin)
+        with Lock("lean"):
+            rc, out = sh(["lake", "build", drv_bin], cwd=LEAN)
             if rc != 0:
                 self.broken.append(("driver", "lake build %s failed: %s" % (drv_bin, out[-800:])))
-        if not os.path.exists(exe):
-            return [], 127, "driver executable %s missing" % exe
-        with open(trace_path) as f:
-            p = subprocess.run([exe, comp_drv], stdin=f, stdout=subprocess.PIPE, stderr=subprocess.PIPE, text=True)
+                self.exes[drv_bin] = None
+                return None
+            mine = os.path.join(self.scratch, "exe-" + drv_bin)
+            try:
+                shutil.copy2(exe, mine)
+            except OSError as e:
+                self.broken.append(("driver", "driver executable %s missing: %s" % (exe, e)))
+                mine = None
+        self.exes[drv_bin] = mine
+        return mine
+
+    def drv(self, comp_drv, trace_path, drv_bin="bngdrv"):
+        exe = self.build_driver(drv_bin)
+        if exe is None:
+            return [], 127, "driver executable %s not built" % drv_bin
+        try:
+            with open(trace_path, "rb") as f:
+                p = subprocess.run([exe, comp_drv], stdin=f, stdout=subprocess.PIPE, stderr=subprocess.PIPE,
+                                   text=True, errors="replace", timeout=7200)
+        except subprocess.TimeoutExpired:
+            return [], 124, "driver %s %s timed out" % (drv_bin, comp_drv)
         return p.stdout.splitlines(), p.returncode, p.stderr
 
 
@@ -213,8 +299,7 @@ def _driver_registry():
     ns2mod = {}
     for fn in os.listdir(os.path.join(LEAN, "Bng", "Drv")):
         if fn.endswith(".lean"):
-            m = re.search(r"^namespace Bng\.Drv\.(\w+)", open(os.path.join(LEAN, "Bng", "Drv", fn)).read(), flags=re.M)
-            if m:
+            for m in re.finditer(r"^namespace Bng\.Drv\.(\w+)", open(os.path.join(LEAN, "Bng", "Drv", fn)).read(), flags=re.M):
                 ns2mod[m.group(1)] = "Bng.Drv." + fn[:-5]
     reg = {}
     for m in re.finditer(r'\("([\w-]+)",\s*([^\n]+?)\)\s*,?\s*$', main, flags=re.M):
@@ -264,9 +349,24 @@ def ensure_driver(prop, comps):
 
 def strip_comments(src):
     """drop block comments, line comments and the contents of string literals (keeps line numbers)"""
-    src = re.sub(r"/-.*?-/", lambda m: "\n" * m.group(0).count("\n"), src, flags=re.S)
-    src = re.sub(r'"(?:[^"\\\n]|\\.)*"', '""', src)
-    return re.sub(r"--.*", "", src)
+    src = re.sub(r'"(?:[^"\\\n]|\\.)*"', '""', src)       # string literals first: a "/-" inside one opens nothing
+    out, i, depth = [], 0, 0
+    while i < len(src):                                      # block comments nest; a line comment hides a "/-"
+        two = src[i:i + 2]
+        if depth == 0 and two == "--":
+            j = src.find("\n", i)
+            i = len(src) if j < 0 else j
+        elif two == "/-":
+            depth += 1
+            i += 2
+        elif two == "-/" and depth > 0:
+            depth -= 1
+            i += 2
+        else:
+            if depth == 0 or src[i] == "\n":
+                out.append(src[i])
+            i += 1
+    return "".join(out)
 
 
 def load_known(prop):
@@ -283,7 +383,7 @@ def load_known(prop):
 def read_seqs(path):
     """returns list of sequences; each a list of raw trace lines"""
     seqs, cur = [], []
-    for line in open(path):
+    for line in open(path, errors="replace"):
         line = line.rstrip("\n")
         if line.startswith("#"):
             continue
@@ -326,6 +426,45 @@ class Component:
         self.kind = kind
 
 
+def run_harness(args, env, stdin_path=None, stdin_text=None, stdout_path=None, timeout=7200):
+    """run a harness binary; returns (rc, stderr tail); rc 124 = timed out"""
+    fin = open(stdin_path, "rb") if stdin_path else None
+    try:
+        with open(stdout_path, "wb") as fout:
+            p = subprocess.run(args, stdin=fin, input=(stdin_text.encode() if stdin_text is not None else None),
+                               stdout=fout, stderr=subprocess.PIPE, env=env, timeout=timeout)
+        return p.returncode, p.stderr.decode("utf-8", "replace")[-800:]
+    except subprocess.TimeoutExpired:
+        return 124, "timed out after %ss" % timeout
+    finally:
+        if fin:
+            fin.close()
+
+
+def count_lines(path, strip_obs=False):
+    n = 0
+    for l in open(path, errors="replace"):
+        if l.strip() and not l.startswith("#"):
+            n += 1
+    return n
+
+
+_MON_CACHE = {}
+
+
+def monitor_declared(name):
+    """a monitor name listed in a check must occur as a string literal in the Lean sources (a renamed or mistyped
+    monitor would otherwise silence the property for good)"""
+    if not _MON_CACHE:
+        blob = []
+        for root, _, files in os.walk(os.path.join(LEAN, "Bng")):
+            for fn in files:
+                if fn.endswith(".lean"):
+                    blob.append(open(os.path.join(root, fn), errors="replace").read())
+        _MON_CACHE["blob"] = "\n".join(blob)
+    return ('"%s"' % name) in _MON_CACHE["blob"]
+
+
 def run_component(ctx, comp, seeds=None, tier=None):
     """correspondence + monitor pass for one component; returns list of anomaly dicts"""
     tier = tier or ctx.tier
@@ -333,6 +472,9 @@ def run_component(ctx, comp, seeds=None, tier=None):
     binp = ctx.go_build(comp.harness, comp.kind)
     if binp is None:
         return []
+    for mname in (comp.monitors or []):
+        if not monitor_declared(mname):
+            ctx.broken.append(("machinery", "check lists monitor %r for component %s but no Lean source declares it" % (mname, comp.name)))
     anomalies = []
     env = dict(os.environ)
     env.update(comp.exec_env)
@@ -341,17 +483,23 @@ def run_component(ctx, comp, seeds=None, tier=None):
     cdir = os.path.join(VERIF, "corpus", comp.corpus)
     if os.path.isdir(cdir):
         for fn in sorted(os.listdir(cdir)):
+            src = os.path.join(cdir, fn)
             tp = os.path.join(ctx.scratch, "%s-corpus-%s.trace" % (comp.name, fn))
-            with open(os.path.join(cdir, fn)) as fin, open(tp, "w") as fout:
-                subprocess.run([binp, "exec"], stdin=fin, stdout=fout, env=env, timeout=1800)
+            rc, err = run_harness([binp, "exec"], env, stdin_path=src, stdout_path=tp, timeout=1800)
+            if rc != 0:
+                ctx.broken.append(("harness", "%s exec of corpus %s exited %d: %s" % (comp.name, fn, rc, err)))
+            want, got = count_lines(src), count_lines(tp)
+            if want != got:
+                # a crash (goroutine panic, fatal error, os.Exit) loses the rest of the file: never replay a shortened trace as if it were whole
+                ctx.broken.append(("harness", "%s corpus %s: %d operations in, %d trace lines out (harness died or dropped lines)" % (comp.name, fn, want, got)))
             traces.append(("corpus:" + fn, tp))
     for sd in seeds:
+        if sd not in ctx.seeds_run:
+            ctx.seeds_run.append(sd)
         tp = os.path.join(ctx.scratch, "%s-gen-%d.trace" % (comp.name, sd))
-        with open(tp, "w") as fout:
-            p = subprocess.run([binp, "gen", "-seed", str(sd), "-tier", tier] + comp.gen_args,
-                               stdout=fout, stderr=subprocess.PIPE, env=env, timeout=7200, text=True)
-        if p.returncode != 0:
-            ctx.broken.append(("harness", "%s gen exited %d: %s" % (comp.name, p.returncode, p.stderr[-800:])))
+        rc, err = run_harness([binp, "gen", "-seed", str(sd), "-tier", tier] + comp.gen_args, env, stdout_path=tp, timeout=7200)
+        if rc != 0:
+            ctx.broken.append(("harness", "%s gen exited %d: %s" % (comp.name, rc, err)))
         traces.append(("seed:%d" % sd, tp))
     cstat = ctx.corr["components"].setdefault(comp.name, {"seqs": 0, "lines": 0, "diffs": 0, "viols": 0})
     seen_diff = set()
@@ -359,13 +507,23 @@ def run_component(ctx, comp, seeds=None, tier=None):
         out, rc, err = ctx.drv(comp.drv, tp, comp.drv_bin)
         if rc != 0:
             ctx.broken.append(("driver", "bngdrv %s exited %d: %s" % (comp.drv, rc, err[-500:])))
+        elif err.strip():
+            # a Lean `panic!` (e.g. an out-of-range `xs[i]!`) goes to stderr and the run goes on with a default value
+            ctx.broken.append(("driver", "bngdrv %s wrote to stderr: %s" % (comp.drv, err.strip()[-500:])))
         seqs = None
+        stats_seen = False
         for line in out:
             if line.startswith("STATS"):
-                kv = dict(x.split("=") for x in line.split()[1:])
-                for k in ("seqs", "lines"):
-                    ctx.corr[k] += int(kv[k])
-                    cstat[k] += int(kv[k])
+                try:
+                    kv = dict(x.split("=", 1) for x in line.split()[1:])
+                    for k in ("seqs", "lines"):
+                        ctx.corr[k] += int(kv[k])
+                        cstat[k] += int(kv[k])
+                    stats_seen = True
+                    if int(kv["lines"]) != count_lines(tp):
+                        ctx.broken.append(("driver", "bngdrv %s replayed %s of the %d trace lines of %s" % (comp.drv, kv["lines"], count_lines(tp), origin)))
+                except (KeyError, ValueError):
+                    ctx.broken.append(("driver", "unparseable STATS line of bngdrv %s: %s" % (comp.drv, line[:200])))
                 continue
             m = re.match(r"(DIFF|VIOL) seq=(\d+) line=(\d+) (.*)", line)
             if not m:
@@ -374,8 +532,13 @@ def run_component(ctx, comp, seeds=None, tier=None):
             a = {"kind": kind, "seq": sq, "line": ln, "origin": origin, "component": comp.name, "text": rest}
             if kind == "VIOL":
                 mm = re.match(r"monitor=(\S+) clause=(\S+) detail=(.*) op=(.*)", rest)
+                if not mm:
+                    ctx.broken.append(("driver", "unparseable VIOL line of bngdrv %s: %s" % (comp.drv, rest[:300])))
+                    continue
                 a.update(monitor=mm.group(1), clause=mm.group(2), detail=mm.group(3), op=mm.group(4))
                 if comp.monitors is not None and a["monitor"] not in comp.monitors:
+                    # another property's monitor (that property's check lists it); counted, so that nothing vanishes unseen
+                    ctx.foreign[a["monitor"]] = ctx.foreign.get(a["monitor"], 0) + 1
                     continue
                 cstat["viols"] += 1
                 ctx.corr["viols"] += 1
@@ -390,7 +553,11 @@ def run_component(ctx, comp, seeds=None, tier=None):
                 seqs = read_seqs(tp)
             a["trace"] = seqs[sq] if sq < len(seqs) else []
             anomalies.append(a)
+        if rc == 0 and not stats_seen:
+            ctx.broken.append(("driver", "bngdrv %s printed no STATS line for %s" % (comp.drv, origin)))
         summarize_trace(ctx, comp, tp)
+    if cstat["seqs"] == 0:
+        ctx.broken.append(("harness", "component %s: no sequence was executed and replayed" % comp.name))
     return anomalies
 
 
@@ -417,7 +584,7 @@ def summarize_trace(ctx, comp, tp):
         if len(ctx.corr["samples"]) < 3 and 3 <= len(cur) <= 14:
             ctx.corr["samples"].append({"component": comp.name, "trace": cur})
         cur = []
-    for line in open(tp):
+    for line in open(tp, errors="replace"):
         line = line.rstrip("\n")
         if line.startswith("#"):
             continue
@@ -433,8 +600,7 @@ def recheck(ctx, comp, binp, ops, want):
     tp = os.path.join(ctx.scratch, "shrink.trace")
     env = dict(os.environ)
     env.update(comp.exec_env)
-    with open(tp, "w") as fout:
-        subprocess.run([binp, "exec"], input="\n".join(ops) + "\n", stdout=fout, env=env, text=True, timeout=600)
+    run_harness([binp, "exec"], env, stdin_text="\n".join(ops) + "\n", stdout_path=tp, timeout=600)
     out, _, _ = ctx.drv(comp.drv, tp, comp.drv_bin)
     for line in out:
         if want["kind"] == "VIOL" and line.startswith("VIOL") and ("monitor=%s " % want["monitor"]) in line \
@@ -473,9 +639,10 @@ def shrink(ctx, comp, anomaly, budget_s=60):
 
 
 def write_replay(ctx, name, payload):
-    d = os.path.join(VERIF, "replays")
+    d = ctx.replay_dir
     os.makedirs(d, exist_ok=True)
-    p = os.path.join(d, "%s-%d-%s.json" % (ctx.prop, ctx.seed, name))
+    p = os.path.join(d, "%s-%d-%s.json" % (ctx.prop, ctx.seed, re.sub(r"[^\w.-]", "_", name)))
+    payload = dict(payload, **repo_state())
     with open(p, "w") as f:
         json.dump(payload, f, indent=1)
     return p
@@ -488,8 +655,12 @@ def judge(ctx, comps, anomalies_by_comp, escalate=None):
     for comp, anomalies in anomalies_by_comp:
         for a in anomalies:
             if a["kind"] == "VIOL":
-                if a["clause"] in ctx.known:
-                    ctx.known_hits.setdefault(a["clause"], ctx.known[a["clause"]]["what"])
+                e = ctx.known.get(a["clause"])
+                # an entry that names its component / monitors accounts for verdicts of exactly those
+                if e is not None and e.get("match_component", comp.name) == comp.name and \
+                        a["monitor"] in e.get("match_monitors", [a["monitor"]]):
+                    ctx.known_hits.setdefault(a["clause"], e["what"])
+                    ctx.suppressed[a["clause"]] = ctx.suppressed.get(a["clause"], 0) + 1
                 else:
                     viols.append((comp, a))
             else:
@@ -502,9 +673,9 @@ def judge(ctx, comps, anomalies_by_comp, escalate=None):
         reported.add(key)
         ops = shrink(ctx, comp, a)
         _, tp = recheck(ctx, comp, os.path.join(ctx.scratch, "hx-" + comp.harness), ops, a)
-        rp = write_replay(ctx, "%s-%s" % (comp.name, a["monitor"]), {
+        rp = write_replay(ctx, "%s-%s" % (comp.name, a["monitor"]) + ("" if a["clause"] == "none" else "-" + a["clause"]), {
             "property": ctx.prop, "kind": "monitor-violation-on-implementation", "component": comp.name,
-            "monitor": a["monitor"], "detail": a["detail"], "origin": a["origin"], "seed": ctx.seed,
+            "monitor": a["monitor"], "clause": a["clause"], "detail": a["detail"], "origin": a["origin"], "seed": ctx.seed,
             "ops": ops, "trace": open(tp).read().splitlines(),
             "replay_cmd": "./check %s --replay <this file>" % ctx.prop})
         ctx.violations.append((rp, ""))
@@ -560,19 +731,24 @@ def finish(ctx, level_text, assumptions, checker_cmd, extra_cov=None):
         "theorems": ctx.proof["theorems"],
         "samples": (ctx.proof["theorems"][:3] + ctx.corr["samples"][:3]) or ["none"],
         "known_findings_hit": sorted(ctx.known_hits),
+        "known_finding_verdicts": ctx.suppressed,
+        "verdicts_of_other_properties_monitors": ctx.foreign,
+        "escalated_search": ctx.escalated,
+        "seeds_run": ctx.seeds_run,
         "broken": [{"kind": k, "detail": d[:400]} for k, d in ctx.broken],
         "notes": ctx.notes,
         "explanation": level_text,
     }
     if extra_cov:
         cov.update(extra_cov)
+    cov.update(repo_state())
     ev = {
         "property_id": ctx.prop, "tier": ctx.tier, "seed": ctx.seed, "level": "proof",
         "coverage": cov, "assumptions": assumptions, "wall_s": round(time.time() - ctx.t0, 2),
         "violations": len(ctx.violations),
     }
-    os.makedirs(os.path.join(VERIF, "evidence"), exist_ok=True)
-    with open(os.path.join(VERIF, "evidence", ctx.prop + ".json"), "w") as f:
+    os.makedirs(ctx.evidence_dir, exist_ok=True)
+    with open(os.path.join(ctx.evidence_dir, ctx.prop + ".json"), "w") as f:
         json.dump(ev, f, indent=1)
     for rp, suffix in ctx.violations:
         print("VIOLATION property=%s replay=%s%s" % (ctx.prop, rp, suffix))
@@ -586,62 +762,109 @@ def finish(ctx, level_text, assumptions, checker_cmd, extra_cov=None):
 def standard_check(prop, spec_module, comps, level_text, assumptions, tier, seed, pre=None, post=None):
     """the common shape: theorems + correspondence of a list of components"""
     ctx = Ctx(prop, tier, seed)
+    specs = [spec_module] if isinstance(spec_module, str) else list(spec_module)
+    checker_cmd = "cd /verif/lean && lake build %s && lake env lean audit/Audit%s.lean" % (" ".join(specs), prop)
     try:
-        if pre:
-            pre(ctx)
-        ctx.lean_check(spec_module)
-        if tier == "thorough":
-            ctx.leanchecker(spec_module)
-        own = ensure_driver(prop, comps)
-        if own:
-            for c in comps:
-                if c.drv_bin == "bngdrv":
-                    c.drv_bin = own
+        # one hold of the lean lock from the regeneration of the Gen tables to the private copies of the driver
+        # executables: a concurrent run (of this or of a scratch tree) cannot swap tables, .olean files or binaries
+        with Lock("lean"):
+            if pre:
+                pre(ctx)
+            ctx.lean_check(specs)
+            if tier == "thorough":
+                ctx.leanchecker(specs)
+            own = ensure_driver(prop, comps)
+            if own:
+                for c in comps:
+                    if c.drv_bin == "bngdrv":
+                        c.drv_bin = own
+            else:
+                ctx.notes.append("no per-property driver could be generated: replaying with the common bngdrv")
+            for b in sorted({c.drv_bin for c in comps}):
+                ctx.build_driver(b)
         results = [(c, run_component(ctx, c)) for c in comps]
         if post:
             post(ctx)
 
         def escalate():
             # widen the search for a concrete failing input: ten seeds, thorough generators
+            ctx.escalated = True
             found = False
             for c in comps:
                 an = run_component(ctx, c, seeds=list(range(10)), tier="thorough" if tier == "thorough" else "quick")
                 vs = [a for a in an if a["kind"] == "VIOL" and a["clause"] not in ctx.known]
                 if vs:
                     judge(ctx, comps, [(c, vs)])
-                    found = True
-                    break
+                    found = bool(ctx.violations)
+                    if found:
+                        break
             return found
 
         judge(ctx, comps, results, escalate)
-        return finish(ctx, level_text, assumptions,
-                      "cd /verif/lean && lake build %s && lake env lean <file with: #audit_module <each Spec module>>" % (
-                          spec_module if isinstance(spec_module, str) else " ".join(spec_module)))
     except Exception:
-        ctx.cleanup()
-        raise
+        # the machinery itself failed: that is a broken obligation, reported like one (never a bare traceback)
+        ctx.broken.append(("machinery", traceback.format_exc()[-1500:]))
+        if not ctx.violations:
+            rp = write_replay(ctx, "obligation", {
+                "property": ctx.prop, "kind": "proof-obligation-broken",
+                "broken": [{"kind": k, "detail": d} for k, d in ctx.broken], "lean_errors": ctx.proof["errors"]})
+            ctx.violations.append((rp, " no-failing-input-found"))
+    return finish(ctx, level_text, assumptions, checker_cmd)
 
 
-def replay(prop, comps, path):
+def replay(prop, comps, path, spec_module=None):
+    """re-run a replay file against the current tree: exit 1 (with the VIOLATION line) if what it records still happens"""
     data = json.load(open(path))
     ctx = Ctx(prop, "quick", 0)
     try:
         comp = next((c for c in comps if c.name == data.get("component")), None)
         if comp is None:
-            print(json.dumps(data, indent=1))
+            # a broken proof obligation: re-check the theorems
+            print(json.dumps(data, indent=1)[:4000])
+            if spec_module is None:
+                print("(no component in this replay file and no Spec modules given: nothing re-run)")
+                return 0
+            ok = ctx.lean_check(spec_module)
+            for k, d in ctx.broken:
+                print("BROKEN %s: %s" % (k, d[:400]))
+            if not ok or ctx.broken:
+                print("VIOLATION property=%s replay=%s no-failing-input-found" % (prop, path))
+                return 1
+            print("the obligations of %s check on the current tree" % prop)
             return 0
         binp = ctx.go_build(comp.harness, comp.kind)
+        if binp is None:
+            for k, d in ctx.broken:
+                print("BROKEN %s: %s" % (k, d[:400]))
+            print("VIOLATION property=%s replay=%s no-failing-input-found" % (prop, path))
+            return 1
         own = ensure_driver(prop, comps)
         if own and comp.drv_bin == "bngdrv":
             comp.drv_bin = own
         tp = os.path.join(ctx.scratch, "replay.trace")
-        with open(tp, "w") as fout:
-            subprocess.run([binp, "exec"], input="\n".join(data["ops"]) + "\n", stdout=fout, text=True)
+        env = dict(os.environ)
+        env.update(comp.exec_env)
+        run_harness([binp, "exec"], env, stdin_text="\n".join(data["ops"]) + "\n", stdout_path=tp, timeout=1800)
         print("--- implementation trace")
-        print(open(tp).read())
+        print(open(tp, errors="replace").read())
         print("--- model / monitor verdicts (bngdrv %s)" % comp.drv)
         out, _, _ = ctx.drv(comp.drv, tp, comp.drv_bin)
         print("\n".join(out))
+        hit = False
+        for line in out:
+            if data.get("kind") == "monitor-violation-on-implementation":
+                if line.startswith("VIOL") and ("monitor=%s " % data.get("monitor")) in line and \
+                        ("clause=%s " % data.get("clause", "none")) in line:
+                    hit = True
+            elif line.startswith("DIFF"):
+                m = re.search(r" op=(\S+)", line)
+                if not (m and m.group(1) in comp.ignore_diff_ops):
+                    hit = True
+        if hit:
+            sfx = "" if data.get("kind") == "monitor-violation-on-implementation" else " no-failing-input-found"
+            print("VIOLATION property=%s replay=%s%s" % (prop, path, sfx))
+            return 1
+        print("not reproduced on the current tree")
         return 0
     finally:
         ctx.cleanup()
